@@ -1,6 +1,7 @@
 import Proofs.Lemmas.ServerLocal
 import Proofs.Lemmas.ServerBound
 import Proofs.Props.C09
+import Proofs.Lemmas.ClientInv
 /-!
   C03 — RPCs sharing a tunnel are independent; no head-of-line blocking
   (server endpoint).  Locality: a stimulus addressed to RPC `sid` changes only
@@ -61,5 +62,29 @@ theorem C03_tick_local (s : Srv α) (d : Nat) :
 theorem C03_no_hol_server (cfg : SCfg) (xs : List (SStim α)) :
     ∀ e ∈ (Srv.run cfg ({} : Srv α) xs).1.streams, e.2.fc = true → e.2.unsupported = false :=
   Proofs.ServerBound.fc_never_unsupported cfg xs
+
+/-! ### client endpoint -/
+
+/-- **Client: a frame for a live RPC touches and speaks for that RPC only**, and
+    never ends the channel. -/
+theorem C03_client_frame_local (cfg : CCfg) (c : Cli α) (sid : Sid) (f : S2C α) (st : CStream α)
+    (hfin : c.finished = none) (hph : c.phase = .running) (hst : c.getStream sid = some st) :
+    Proofs.ClientInv.COut.onlySid sid (c.onFrame cfg sid f).2 ∧ (c.onFrame cfg sid f).1.finished = none ∧
+    (c.onFrame cfg sid f).1.lastStreamID = c.lastStreamID ∧
+    ∀ e ∈ c.streams, e.1 ≠ sid → e ∈ (c.onFrame cfg sid f).1.streams :=
+  Proofs.ClientInv.client_frame_local cfg c sid f st hfin hph hst
+
+/-- **Client: an RPC's own calls — cancellation included — never end the
+    channel or touch another RPC.** -/
+theorem C03_client_call_local (cfg : CCfg) (c : Cli α) (sid : Sid) (call : CCall α) :
+    Proofs.ClientInv.COut.onlySid sid (c.onCall cfg sid call).2 ∧ (c.onCall cfg sid call).1.finished = c.finished ∧
+    (c.onCall cfg sid call).1.lastStreamID = c.lastStreamID ∧
+    ∀ e ∈ c.streams, e.1 ≠ sid → e ∈ (c.onCall cfg sid call).1.streams :=
+  Proofs.ClientInv.client_call_local cfg c sid call
+
+/-- **No head-of-line blocking with flow control (client receive loop).** -/
+theorem C03_no_hol_client (cfg : CCfg) (xs : List (CStim α)) :
+    ∀ e ∈ (Cli.run cfg (Cli.start cfg) xs).1.streams, e.2.fc = true → e.2.unsupported = false :=
+  Proofs.ClientInv.client_fc_never_unsupported cfg xs
 
 end Proofs.C03
